@@ -116,9 +116,8 @@ DISAGREEING = {
                                       "field or inherited from the file): only the stable compiler rejects",
 }
 
-# What is withheld by default: name -> (what, the keys its inputs produce on the unchanged tree).  A name is generated / its corpus file
-# corpus/C27/<name>.proto is read when VERIF_C27_FEATURES_GATED is 1 (all) or lists it, or - without any switch - as soon as
-# KNOWN_FINDINGS.txt has a `known:` line for every one of its keys.  Sub-strata of feature_cases are withheld by their trait name.
+# Two further disagreeing classes found by the thorough tier: name -> (what, the keys its inputs produce on the unchanged tree); their
+# smallest inputs corpus/C27/<name>.proto are part of the quick corpus and always run (see gated_on).
 GATED = {
     "range-endpoint-in-19000-19999": ("a reserved or extension range of a message with an end point in 19000..19999 (the numbers reserved for "
                                       "the implementation): the stable compiler (as protoc) accepts the range, the experimental one reports "
@@ -217,14 +216,10 @@ def known_keys():
 
 
 def gated_on():
-    """the names of GATED that are generated in this run"""
-    import os
-    v = os.environ.get("VERIF_C27_FEATURES_GATED", "").strip()
-    if v == "1" or v == "all":
-        return set(GATED)
-    on = set(x.strip() for x in v.split(",")) & set(GATED) if v not in ("", "0") else set()
-    kn = known_keys()
-    return on | set(n for n, (_, keys) in GATED.items() if all(k in kn for k in keys))
+    """the names of GATED that are generated in this run: all of them, always.  (The switch existed while the two classes were being
+    triaged; both are `known:` lines of KNOWN_FINDINGS.txt now.  Which inputs are explored never depends on what that file lists:
+    if a line were removed the class would be reported as a violation again.)"""
+    return set(GATED)
 
 
 def feature_cases(rng, quick_budget=None, with_gated=None):
